@@ -166,11 +166,10 @@ def _safe_gen():
 
 
 QUICK_ARCH = _re.compile(
-    r"^(i_halt00|i_halt01_continue|i_nop_0|i_clr_0|i_ei_0|i_di_0|i_push_0|i_pop_0|i_pushf_0|i_popf_0|i_jr_0|i_jcs_[01]|i_jzc_1|"
-    r"i_jrnever_0|i_call_0|i_reti_0|i_com_0|i_neg_0|i_lsr_0|i_asr_0|i_rrc_0|i_inc_0|i_tst_0|i_dec_r_0|i_dec_mmi_0|i_add_rs1_0|"
-    r"i_adc_rs2_0|i_sub_rs0_0|i_and_rs3_0|i_or_rs1_0|i_xor_rs2_0|i_mul_rs0_\d|i_mul_entry_rs1|i_mul_iter_168_c1|i_mul_exit_168_c1|"
-    r"i_mul_exit_164_c0|i_div_rs2_\d|i_div_entry_rs0|i_div_iter_188|i_div_exit_188|i_src_r_0|i_src_mi_0|i_src_mmi_0|s_mov_r_0|"
-    r"s_mov_mmi_0|s_cmp_m_0|s_cmp_mmi_0|s_bitt_r_0|s_bits_mi_0|s_bitc_mmi_0|s_ldsp_0|s_ldfr_0)$")
+    r"^(i_halt00|i_halt01_continue|i_nop_0|i_clr_0|i_ei_0|i_di_0|i_push_0|i_pop_0|i_pushf_0|i_popf_0|i_jr_0|i_jcs_[01]|i_jzs_1|i_jns_0|"
+    r"i_jcc_1|i_jzc_1|i_jnc_0|i_jrnever_0|i_call_0|i_reti_0|i_com_0|i_neg_0|i_lsr_0|i_asr_0|i_rrc_0|i_inc_0|i_tst_0|i_dec_r_0|i_dec_mmi_0|"
+    r"i_add_rs\d_0|i_adc_rs\d_0|i_sub_rs\d_0|i_and_rs3_0|i_or_rs\d_0|i_xor_rs2_0|i_mul_rs0_\d|i_mul_entry_rs\d|i_mul_iter_168_c1|"
+    r"i_mul_exit_168_c1|i_mul_exit_164_c0|i_div_rs2_\d|i_div_entry_rs\d|i_div_iter_188|i_div_exit_188|i_src_\w+_0|s_\w+_0)$")
 QUICK_TIMING = _re.compile(
     r"^(t_nop_0|t_push_0|t_pop_0|t_jcs_[01]|t_call_0|t_reti_0|t_dec_mmi_0|t_add_rs1_0|t_and_rs3_0|t_mul_entry_rs1|t_mul_iter_168_c1|"
     r"t_mul_exit_168_c1|t_div_iter_188|t_div_exit_188|t_src_mi_0|t_src_mmi_0|u_mov_r_0|u_mov_mmi_0|u_cmp_m_0|u_bitc_mmi_0|"
@@ -333,7 +332,7 @@ def C09(tier):
         for m in gc["meta"]:
             if m["kind"] in ("mul-iter", "div-iter", "mul-entry", "div-entry"):
                 hs.append(Harness("gen::paths::" + m["fn"], key="sequencer.loop-termination", timeout=1500, domain=_dom(m),
-                                  tier="quick" if ("168_c1" in m["fn"] or "188" in m["fn"] or "rs1" in m["fn"]) else "thorough"))
+                                  tier="quick" if ("168_c1" in m["fn"] or "188" in m["fn"] or "entry" in m["fn"]) else "thorough"))
     return dict(
         harnesses=hs, kani_extra=PATH_FLAGS, generators=[lambda: _safe_gen()],
         pre=(lambda: {"inconclusive": [err]}) if err else None, post=_graph_post("C09", {"c09"}),
@@ -404,8 +403,10 @@ def _tr_harnesses(groups, tier_filter=None):
                "two-op-leaf": "real leaf encoder (compile_instruction_mov / from_bases_dst_and_src) for this destination x source shape; registers and constants symbolic; full byte content",
                "two-op-step": "real push_instruction for this shape: number of bytes and address-counter step",
                "two-op-dispatch": "real push_instruction, register/register shape: opcode base and leaf encoder chosen for the class (full content)"}[m["group"]]
-        hs.append(Harness("gen::tr::" + fn, key="enc." + fn, domain=TR + dom, timeout=3000 if m.get("heavy") else 900,
-                          tier="quick" if m["quick"] else "thorough"))
+        hh = Harness("gen::tr::" + fn, key="enc." + fn, domain=TR + dom, timeout=3600 if m.get("heavy") else 900,
+                     tier="quick" if m["quick"] else "thorough")
+        hh.heavy = bool(m.get("heavy"))
+        hs.append(hh)
     return hs
 
 
